@@ -80,7 +80,8 @@ def choose(rng, regs, kind, fresh):
         if rng.random() < 0.4:
             sym = type(x.symmetry).__name__
             a["c"] = list(rng.choice(gen.CHARGE_POOL[sym]))
-            a["dual"] = rng.random() < 0.5
+            if rng.random() < 0.6:
+                a["dual"] = rng.random() < 0.5      # (otherwise the direction is inherited from the neighbouring axis)
         add("expand_dims", a)
     unit0 = [i for i, ix in enumerate(x.indices)
              if ix.size_total == 1 and next(iter(ix.chargemap)) == x.symmetry.combine()]
